@@ -122,6 +122,31 @@ def run(ctx):
         if [list(x) for x in got] != want:
             ctx.report('pronto', 'once/repeat sequences of one hex string decode differently than on their own', dict(n=len(d1) + len(d2)),
                        dict(freq=freq, once=d1, repeat=d2, pronto=both, repeat_count=nrep, decoded=[list(x) for x in got][:4], expected=want[:4]))
+    # ---- the same durations converted several times in one process with different once / repeat structure (flat = repeat only,
+    # [once, repeat] cut at several even points, flat again): every result must have the header counts of ITS structure, the
+    # data words of the flat conversion, and must come back as sequences of those lengths
+    for i in range(150 if ctx.tier == 'quick' else 3000):
+        freq, dd = gen_list(rng, False)
+        n2 = len(dd) // 2
+        cuts = sorted(set([0, 2 * rng.randint(0, n2), 2 * rng.randint(0, n2), len(dd)]))
+        rng.shuffle(cuts)
+        try:
+            flat = pronto.rlc_to_pronto(freq, list(dd)).split(' ')
+            for c in cuts + [None]:
+                arg = list(dd) if c is None else [list(dd[:c]), list(dd[c:])]
+                got = pronto.rlc_to_pronto(freq, arg).split(' ')
+                want = flat if c is None else flat[:2] + ['%04X' % (c // 2), '%04X' % ((len(dd) - c) // 2)] + flat[4:]
+                ctx.count_eval(key=('structure', freq, tuple(dd[:4]), len(dd), c))
+                back = pronto.pronto_to_rlc(' '.join(got))[1]
+                lens = [len(x) for x in back]
+                wl = [len(dd)] if c in (None, 0) else ([c] if c == len(dd) else [c, len(dd) - c])
+                if got != want or lens != wl:
+                    ctx.report('pronto', 'conversion depends on an earlier conversion of the same durations', dict(n=len(dd)),
+                               dict(freq=freq, data=dd, cut=c, order_of_cuts=cuts, pronto=' '.join(got), expected=' '.join(want),
+                                    decoded_lengths=lens, expected_lengths=wl))
+                    break
+        except Exception as e:  # noqa
+            ctx.report('pronto', 'conversion raises ' + type(e).__name__, dict(odd=False, n=len(dd)), dict(freq=freq, data=dd, structured=True))
     bad = vlib.run_model_cases(ctx, 'corr_pronto', 'Require Import PyIR.Util.Pronto.', 'run_pronto', '(Z * list Z)', cases,
                                shard=100, timeout=900)
     if bad is None:
